@@ -4,6 +4,7 @@ import (
 	"bytes"
 	"fmt"
 	"math/rand"
+	"os"
 	"reflect"
 	"runtime"
 	"strconv"
@@ -588,7 +589,9 @@ func childC03(args []string) int {
 		all22 = all22[:n22]
 	}
 	for _, p := range all22 {
-		add(p, -1, 0, false, "2x2")
+		// programs with two multi-key gets in multi-reader mode have hundreds of thousands of
+		// schedules: the DFS is cut off per program; completeness is reported per class
+		add(p, -1, 2500, false, "2x2")
 	}
 	// 3x1, 2x3 and two-key programs with preemption bound 3; larger random programs
 	nb := run.Pick(60, 1500)
@@ -668,6 +671,15 @@ func childC03(args []string) int {
 			complete[pr.class] = false
 		}
 		run.Count("programs_"+pr.class, 1)
+		if !pr.random && pr.bound < 0 && ex.Exhausted {
+			run.Count("programs_"+pr.class+"_with_every_schedule_enumerated", 1)
+		}
+		if pi%100 == 99 {
+			// hand partial results to the parent now and then: a watchdog must not lose them
+			if p := os.Getenv("VERIF_CHILD_EXPORT"); p != "" {
+				run.Export(p)
+			}
+		}
 		run.Count("distinct_schedules", int64(ex.Distinct()))
 		for k := range ex.Prints {
 			run.Distinct(fmt.Sprintf("%d|%x", pi, k))
